@@ -20,7 +20,7 @@ import hashlib
 import z3
 import numpy as np
 
-from .sym import (Sym, is_sym, lift, CTX, sym_div, sym_sqrt, sym_pow, py_int, to_real, And, Or, Not,
+from .sym import (Sym, is_sym, lift, CTX, sym_div, sym_sqrt, sym_pow, py_int, to_real, And, Or, Not, ite,
                   SymbolicTruthError, _simp, _b)
 from . import npmodel
 from .npmodel import SymArray
@@ -196,6 +196,15 @@ class SymSet:
     def nonempty(self):
         return bool(self.items)
 
+    def size(self):
+        """number of distinct members: a member counts when it differs from all earlier ones"""
+        total = 0
+        for i, x in enumerate(self.items):
+            earlier = [x != y for y in self.items[:i]]
+            ind = And(*earlier) if earlier else True
+            total = total + (ite(ind, 1, 0) if is_sym(ind) else (1 if ind else 0))
+        return total
+
     def contains(self, item):
         return Or(*[x == item for x in self.items]) if self.items else False
 
@@ -338,6 +347,8 @@ class Interp:
             t = args[0].t
             return (z3.is_int(t) and int in want) or (z3.is_real(t) and float in want) or \
                 (z3.is_bool(t) and bool in want)
+        if f is len and isinstance(args[0], SymSet):
+            return args[0].size()
         if f in (len, tuple, list, zip, enumerate, reversed, iter, next, range, dict, isinstance, type, id, repr,
                  hasattr, getattr, setattr):
             return self.native(f, args, kw)
@@ -436,6 +447,10 @@ class Interp:
         except (OutsideSubset, Raised, Ret):
             raise
         except Exception as exc:      # the real callee raised: that is the program's behaviour
+            if isinstance(exc, (TypeError, AttributeError)) and any(
+                    w in str(exc) for w in ("'Sym'", "'SymSet'", "'SymInter'", "'SymArray'", "Opaque", "'Closure'")):
+                # ... unless it was raised because a model object of the engine does not support the operation
+                raise OutsideSubset(f'{type(exc).__name__}: {exc}') from None
             raise Raised(exc) from None
 
     # --------------------------------------------------------- statements
